@@ -122,6 +122,15 @@ func loadEngine(repo string, specDir string, patterns []string) (*Engine, error)
 	e.scanGlobals()
 	theEngine = e
 	e.registerAxioms()
+	// ghost fields of reference type (the response header map) hold references to allocated objects, like real fields
+	for _, g := range e.ghostNames() {
+		if _, gt := e.ghostSort(g); gt != nil {
+			switch gt.Underlying().(type) {
+			case *types.Map, *types.Pointer:
+				refFams.Store("X|"+g, true)
+			}
+		}
+	}
 	return e, nil
 }
 
@@ -406,6 +415,18 @@ func (e *Engine) typeByName(name string) types.Type {
 		return nil
 	}
 	o := p.Types.Scope().Lookup(tn)
+	if o == nil && p.TypesInfo != nil {
+		// a type declared inside a function body: accepted when the name is unique in the package
+		var found []types.Object
+		for _, d := range p.TypesInfo.Defs {
+			if tnm, ok := d.(*types.TypeName); ok && tnm.Name() == tn && tnm.Parent() != p.Types.Scope() {
+				found = append(found, tnm)
+			}
+		}
+		if len(found) == 1 {
+			o = found[0]
+		}
+	}
 	if o == nil {
 		return nil
 	}
